@@ -102,6 +102,7 @@ fn main() {
     let mut all = catalog::prims("Rgb888", th, &mut rng, tl);
     all.extend(catalog::texts("Rgb888", th, tl));
     all.extend(catalog::images("Rgb888", th, &mut rng, tl));
+    catalog::add_dotted(&mut all, if th { 2 } else { 4 });
     let configs: Vec<Value> = vec![
         json!([]),
         json!([{"k":"tr","o":[2, -1]}]),
